@@ -116,9 +116,6 @@ Proof.
     intros Hsk. rewrite Hp in Hsk. discriminate.
 Qed.
 
-Lemma simple_chain_snoc_sk ps0 c n : simple_chain ps0 -> simple_chain (ps0 ++ [sk_payload c n]).
-Proof. intros H. apply Forall_app. split; [exact H | repeat constructor]. Qed.
-
 (** a successful Message._payloads_to_bytes on [ps0 ++ [SK]] means the SK body fitted its 16-bit length *)
 Lemma payloads_to_bytes_snoc_ok ps0 c n pd :
   fst (payloads_to_bytes (ps0 ++ [sk_payload c n])) = Ok pd -> (4 + len_of c < 65536)%N.
@@ -175,7 +172,7 @@ Section Layout.
   Lemma encode_protected_layout cr m d :
     (forall k x, length (mac k x) = c_icv cr) -> (0 < c_icv cr)%nat -> (0 < c_bs cr <= 256)%nat ->
     (forall k iv p, length (enc k iv p) = length p) ->
-    wf_protected cr m -> simple_chain (m_payloads m) -> simple_chain (m_enc_payloads m) ->
+    wf_protected cr m ->
     encode enc mac (Some cr) m = Ok d ->
     exists (p : N) (tag : bytes),
       let clr := rfc_chain (m_enc_payloads m) in
@@ -184,16 +181,16 @@ Section Layout.
       let m1 := with_payloads m (m_payloads m ++
                    [sk_payload (iv ++ enc (c_sk_e cr) iv pt ++ tag) (rfc_first (m_enc_payloads m))]) in
       (p < N.of_nat (c_bs cr))%N /\ (length pt mod c_bs cr = 0)%nat /\ length tag = c_icv cr
-      /\ wf_msg m1 /\ simple_chain (m_payloads m1) /\ d = rfc_encode m1.
+      /\ wf_msg m1 /\ d = rfc_encode m1.
   Proof.
-    intros Hmac Hicv Hbs Henc (Hhdr & Hch & Hno & Hech & Hbytes & Hivl) Hs Hes H.
+    intros Hmac Hicv Hbs Henc (Hhdr & Hch & Hno & Hech & Hbytes & Hivl) H.
     pose proof Hhdr as (Hi & Hr & Hma & Hmi & Hex & Hid).
     unfold encode, encode_m in H.
     apply fst_bind_ok in H as (ps & Hps & H).
     (* the Encrypted payload *)
     apply fst_bind_ok in Hps as (clr & Hclr & Hps). cbv zeta in Hps.
     apply fst_bind_ok in Hps as (body & Hbody & Hps). apply fst_ret_inv in Hps.
-    rewrite (chain_layout _ Hech (body_ok_simple _ Hech Hes)) in Hclr. apply fst_ret_inv in Hclr. subst clr.
+    rewrite (chain_layout _ Hech (body_ok_chain _ Hech)) in Hclr. apply fst_ret_inv in Hclr. subst clr.
     unfold sk_generate in Hbody. apply fst_bind_ok in Hbody as (pt & Hpt & Hbody). apply fst_ret_inv in Hbody.
     destruct (sk_plaintext_spec cr (rfc_chain (m_enc_payloads m)) Hbs) as (p & Hpt' & Hp & Hmod).
     rewrite Hpt' in Hpt. inversion Hpt as [Hpt'']. clear Hpt. subst pt.
@@ -211,8 +208,7 @@ Section Layout.
     pose proof (payloads_to_bytes_snoc_ok _ _ _ _ Hpd) as Hsklen.
     set (ps0 := m_payloads m ++ [sk_payload body next]) in *.
     assert (Hwfps : wf_chain ps0) by (apply wf_chain_snoc_sk; assumption).
-    assert (Hsps : simple_chain ps0) by (apply simple_chain_snoc_sk; assumption).
-    pose proof (body_ok_simple _ Hwfps Hsps) as Hokps.
+    pose proof (body_ok_chain _ Hwfps) as Hokps.
     rewrite (chain_layout _ Hwfps Hokps) in Hpd. apply fst_ret_inv in Hpd. subst pd.
     rewrite first_type_rfc in Hheader.
     set (mh := with_payloads m []).
@@ -259,9 +255,8 @@ Section Layout.
       by (unfold len_of; rewrite EA0, EA1, !app_length, Hbl; reflexivity).
     assert (Hptl : length ptx = (length clr + N.to_nat p + 1)%nat).
     { unfold ptx. rewrite !app_length, repeat_length. cbn [length]. lia. }
-    split; [exact Hp|]. split; [rewrite Hptl; exact Hmod|]. split; [exact Htl|]. split; [| split].
+    split; [exact Hp|]. split; [rewrite Hptl; exact Hmod|]. split; [exact Htl|]. split.
     - unfold wf_msg, with_payloads; cbn. fold ps1. rewrite Hlen01. repeat split; auto.
-    - cbn [with_payloads m_payloads]. apply simple_chain_snoc_sk; exact Hs.
     - assert (Hfirst : rfc_first ps1 = rfc_first ps0) by (symmetry; apply rfc_first_snoc_sk).
       rewrite Hd, Hdata0. unfold rfc_encode. fold ps1. cbn [m0 with_payloads m_payloads].
       rewrite Hlen01, Hfirst.
@@ -284,16 +279,16 @@ Section DecodeProtected.
 
   (** ** Message.parse with crypto on an RFC-layout datagram whose last cleartext payload is SK *)
   Lemma decode_protected_rfc cr m1 ps0 c n iv clr eps :
-    wf_msg m1 -> simple_chain (m_payloads m1) -> m_payloads m1 = ps0 ++ [sk_payload c n] ->
+    wf_msg m1 -> m_payloads m1 = ps0 ++ [sk_payload c n] ->
     mac (c_sk_a cr) (slice_to_neg (rfc_encode m1) (c_icv cr)) = slice_from_neg (rfc_encode m1) (c_icv cr) ->
     fst (sk_decrypt dec cr c) = Ok (iv, clr) -> fst (parse_payloads clr n) = Ok eps ->
     decode dec mac (Some cr) false (rfc_encode m1) =
       Ok (mkMessage (m_spi_i m1) (m_spi_r m1) (m_major m1) (m_minor m1) (m_exchange m1) (m_is_response m1)
                     (m_higher m1) (m_is_initiator m1) (m_id m1) ps0 eps (Some iv) true).
   Proof.
-    intros Hwf Hs Hps Hmacok Hdecr Heps.
+    intros Hwf Hps Hmacok Hdecr Heps.
     pose proof Hwf as (Hi & Hr & Hma & Hmi & Hex & Hid & Hch & Htot & Henc & Hiv & Hau).
-    pose proof (body_ok_simple _ Hch Hs) as Hok.
+    pose proof (body_ok_chain _ Hch) as Hok.
     set (d := rfc_encode m1) in *.
     set (first := rfc_first (m_payloads m1)). set (chain := rfc_chain (m_payloads m1)) in *.
     assert (Hf : fits fmt_Message_to_bytes_0 (hdr_vals m1 first (28 + len_of chain)))
@@ -332,13 +327,13 @@ Section Protected.
     (forall k x, length (mac k x) = c_icv cr) ->
     (forall k iv p, length (enc k iv p) = length p) ->
     (forall k iv p, wf_bytes p -> (length p mod c_bs cr = 0)%nat -> dec k iv (enc k iv p) = p) ->
-    wf_protected cr m -> simple_chain (m_payloads m) -> simple_chain (m_enc_payloads m) ->
+    wf_protected cr m ->
     encode enc mac (Some cr) m = Ok d ->
     decode dec mac (Some cr) false d = Ok (received cr m).
   Proof.
-    intros Hbs Hicv Hmac Henc Hdec Hwf Hs Hes H.
-    destruct (encode_protected_layout enc mac cr m d Hmac Hicv Hbs Henc Hwf Hs Hes H)
-      as (p & tag & Hp & Hmod & Htl & Hwf1 & Hs1 & Hd).
+    intros Hbs Hicv Hmac Henc Hdec Hwf H.
+    destruct (encode_protected_layout enc mac cr m d Hmac Hicv Hbs Henc Hwf H)
+      as (p & tag & Hp & Hmod & Htl & Hwf1 & Hd).
     destruct (encode_icv enc mac cr m d Hmac Hicv H) as [Hicvok _].
     destruct Hwf as (Hhdr & Hch & Hno & Hech & Hbytes & Hivl).
     set (clr := rfc_chain (m_enc_payloads m)) in *. set (iv := sent_iv cr m) in *.
@@ -351,13 +346,13 @@ Section Protected.
       - repeat constructor. unfold is_byte. lia. }
     rewrite Hd in *.
     rewrite (decode_protected_rfc dec mac cr m1 (m_payloads m) (iv ++ ct ++ tag) (rfc_first (m_enc_payloads m)) iv clr
-               (m_enc_payloads m) Hwf1 Hs1 eq_refl (eq_sym Hicvok)).
+               (m_enc_payloads m) Hwf1 eq_refl (eq_sym Hicvok)).
     - reflexivity.
     - apply (sk_decrypt_generated dec cr iv ct tag clr p); fold pt; try assumption; try lia.
       + unfold ct. apply Henc.
       + unfold ct. apply Hdec; assumption.
     - unfold parse_payloads.
-      pose proof (payloads_loop_rfc (m_enc_payloads m) (length clr + 2) [] Hech (body_ok_simple _ Hech Hes)) as Hl.
+      pose proof (payloads_loop_rfc (m_enc_payloads m) (length clr + 2) [] Hech (body_ok_chain _ Hech)) as Hl.
       cbn [app length] in Hl. apply Hl.
       pose proof (rfc_chain_length_ge (m_enc_payloads m)) as Hge. fold clr in Hge. lia.
   Qed.
@@ -387,13 +382,13 @@ Section EncodeOk.
     (0 < c_bs cr <= 256)%nat ->
     (forall k x, length (mac k x) = c_icv cr) ->
     (forall k iv p, length (enc k iv p) = length p) ->
-    wf_protected cr m -> simple_chain (m_payloads m) -> simple_chain (m_enc_payloads m) ->
+    wf_protected cr m ->
     let sk_max := (c_bs cr + (length (rfc_chain (m_enc_payloads m)) + c_bs cr) + c_icv cr)%nat in
     (4 + N.of_nat sk_max < 65536)%N ->
     (28 + len_of (rfc_chain (m_payloads m)) + 4 + N.of_nat sk_max < 4294967296)%N ->
     exists d, encode enc mac (Some cr) m = Ok d.
   Proof.
-    intros Hbs Hmac Henc (Hhdr & Hch & Hno & Hech & Hbytes & Hivl) Hs Hes sk_max Hsk Htotal.
+    intros Hbs Hmac Henc (Hhdr & Hch & Hno & Hech & Hbytes & Hivl) sk_max Hsk Htotal.
     pose proof Hhdr as (Hi & Hr & Hma & Hmi & Hex & Hid).
     destruct (sk_plaintext_spec cr (rfc_chain (m_enc_payloads m)) Hbs) as (p & Hpt & Hp & Hmod).
     set (iv := sent_iv cr m) in *. set (clr := rfc_chain (m_enc_payloads m)) in *.
@@ -407,14 +402,13 @@ Section EncodeOk.
     { unfold body, sk_max. rewrite !app_length, Henc, repeat_length, Hptl, Hivl. fold clr. lia. }
     assert (Hwfps : wf_chain ps0).
     { apply wf_chain_snoc_sk; try assumption; [apply rfc_first_lt | unfold len_of; lia]. }
-    assert (Hsps : simple_chain ps0) by (apply simple_chain_snoc_sk; assumption).
-    pose proof (body_ok_simple _ Hwfps Hsps) as Hokps.
+    pose proof (body_ok_chain _ Hwfps) as Hokps.
     assert (Hcl : length (rfc_chain ps0) = (length (rfc_chain (m_payloads m)) + 4 + length body)%nat)
       by apply rfc_chain_snoc_sk_length.
     unfold encode, encode_m.
     set (PS := bind (payloads_to_bytes (m_enc_payloads m)) _).
     assert (HPS : fst PS = Ok ps0).
-    { unfold PS. rewrite (chain_layout _ Hech (body_ok_simple _ Hech Hes)), bind_ret_l. cbv zeta.
+    { unfold PS. rewrite (chain_layout _ Hech (body_ok_chain _ Hech)), bind_ret_l. cbv zeta.
       rewrite fst_bind. unfold sk_generate. rewrite fst_bind. fold clr. rewrite Hpt. cbn [ret fst].
       rewrite first_type_rfc. reflexivity. }
     rewrite fst_bind, HPS. rewrite first_type_rfc.
@@ -455,15 +449,15 @@ Theorem roundtrip_protected_exists enc dec mac cr m :
   (forall k x, length (mac k x) = c_icv cr) ->
   (forall k iv p, length (enc k iv p) = length p) ->
   (forall k iv p, wf_bytes p -> (length p mod c_bs cr = 0)%nat -> dec k iv (enc k iv p) = p) ->
-  wf_protected cr m -> simple_chain (m_payloads m) -> simple_chain (m_enc_payloads m) ->
+  wf_protected cr m ->
   let sk_max := (c_bs cr + (length (rfc_chain (m_enc_payloads m)) + c_bs cr) + c_icv cr)%nat in
   (4 + N.of_nat sk_max < 65536)%N ->
   (28 + len_of (rfc_chain (m_payloads m)) + 4 + N.of_nat sk_max < 4294967296)%N ->
   exists d, encode enc mac (Some cr) m = Ok d /\ decode dec mac (Some cr) false d = Ok (received cr m).
 Proof.
-  intros Hbs Hicv Hmac Henc Hdec Hwf Hs Hes sk_max H1 H2.
-  destruct (encode_protected_ok enc mac cr m Hbs Hmac Henc Hwf Hs Hes H1 H2) as (d & Hd).
-  exists d. split; [exact Hd|]. exact (roundtrip_protected enc dec mac cr m d Hbs Hicv Hmac Henc Hdec Hwf Hs Hes Hd).
+  intros Hbs Hicv Hmac Henc Hdec Hwf sk_max H1 H2.
+  destruct (encode_protected_ok enc mac cr m Hbs Hmac Henc Hwf H1 H2) as (d & Hd).
+  exists d. split; [exact Hd|]. exact (roundtrip_protected enc dec mac cr m d Hbs Hicv Hmac Henc Hdec Hwf Hd).
 Qed.
 
 (* ------------------------------------------------------------------------------------------ *)
@@ -681,7 +675,9 @@ Qed.
 Lemma toy_dec_enc k iv p : wf_bytes p -> toy_dec k iv (toy_enc k iv p) = p.
 Proof. intros H. apply toy_dec_enc_from. exact H. Qed.
 
-(** an IKE_AUTH-like request: one cleartext NOTIFY, inner IDi, AUTH, SA (ESP proposal with SPI), NONCE *)
+(** an IKE_AUTH-like request: one cleartext NOTIFY, inner IDi, AUTH, SA (ESP proposal with SPI), NONCE, and the
+    payload kinds the earlier restricted statement excluded: DELETE (two 4-octet SPIs), TSi (an IPv4 and an IPv6
+    selector), TSr *)
 Definition ex_cr : crypto :=
   mkCrypto 8 12 [1;2;3;4;5;6;7;8]%N [9;8;7;6;5]%N [10;20;30;40;50;60;70;80]%N.
 Definition ex_cr' : crypto :=
@@ -693,7 +689,11 @@ Definition ex_m : message :=
      mkPayload false (B_AUTH 2 [1;2;3;4;5;6;7;8;9;10;11;12]%N);
      mkPayload false (B_SA [mkProposal 1 3 [1;2;3;4]%N
                               [mkTransform 1 12 (Some 256%N); mkTransform 3 12 None; mkTransform 5 0 None]]);
-     mkPayload false (B_NONCE (repeat 7%N 16))] None false.
+     mkPayload false (B_NONCE (repeat 7%N 16));
+     mkPayload false (B_DELETE 3 [[1; 2; 3; 4]; [5; 6; 7; 8]]%N);
+     mkPayload false (B_TS true [mkTsel 7 6 0 65535 [10; 0; 0; 0]%N [10; 0; 0; 255]%N;
+                                 mkTsel 8 0 0 65535 (repeat 0%N 16) (repeat 255%N 16)]);
+     mkPayload false (B_TS false [mkTsel 7 17 500 500 [192; 168; 1; 1]%N [192; 168; 1; 1]%N])] None false.
 (** an INFORMATIONAL request without inner payloads *)
 Definition ex_m_empty : message :=
   mkMessage [1;2;3;4;5;6;7;8]%N [8;7;6;5;4;3;2;1]%N 2 0 37 false false true 2 [] [] None false.
@@ -702,15 +702,20 @@ Definition ex_encode (cr : crypto) (m : message) : bytes :=
   match encode toy_enc (toy_mac (c_icv cr)) (Some cr) m with Ok d => d | _ => [] end.
 Definition set_octet (d : bytes) (i : nat) (v : N) : bytes := firstn i d ++ [v] ++ skipn (S i) d.
 
-Lemma ex_wf : wf_protected ex_cr ex_m /\ simple_chain (m_payloads ex_m) /\ simple_chain (m_enc_payloads ex_m).
+Lemma ex_wf : wf_protected ex_cr ex_m.
 Proof.
-  split; [| split].
-  - unfold wf_protected, wf_hdr, no_sk, ex_m, ex_cr, sent_iv. cbn -[N.lt N.le wf_bytes rfc_chain].
-    repeat split; try reflexivity; try lia; try discriminate;
-      try (apply wf_bytesb_spec; vm_compute; reflexivity);
-      repeat constructor; cbn; try lia; try discriminate.
-  - unfold simple_chain, ex_m; cbn. repeat constructor.
-  - unfold simple_chain, ex_m; cbn. repeat constructor.
+  unfold wf_protected, wf_hdr, no_sk, ex_m, ex_cr, sent_iv. cbn -[N.lt N.le wf_bytes rfc_chain].
+  repeat split; try reflexivity; try lia; try discriminate;
+    try (apply wf_bytesb_spec; vm_compute; reflexivity);
+    repeat constructor; cbn; try lia; try discriminate.
+Qed.
+
+(** the inner chain of the example does contain the payload kinds [simple_chain] (C05's earlier restriction) excludes *)
+Lemma ex_m_not_simple : ~ simple_chain (m_enc_payloads ex_m).
+Proof.
+  unfold simple_chain, ex_m. cbn [m_enc_payloads]. intros H.
+  repeat match goal with H : Forall _ (_ :: _) |- _ => inversion H; clear H; subst end.
+  cbn in *. assumption.
 Qed.
 
 (** every hypothesis of [roundtrip_protected] holds for the toy instance, encode succeeds, and the conclusion
@@ -721,15 +726,16 @@ Example roundtrip_protected_nonvacuous :
    /\ (forall k x, length (mac k x) = c_icv cr)
    /\ (forall k iv p, length (toy_enc k iv p) = length p)
    /\ (forall k iv p, wf_bytes p -> (length p mod c_bs cr = 0)%nat -> toy_dec k iv (toy_enc k iv p) = p)
-   /\ wf_protected cr ex_m /\ simple_chain (m_payloads ex_m) /\ simple_chain (m_enc_payloads ex_m))
+   /\ wf_protected cr ex_m)
+  /\ ~ simple_chain (m_enc_payloads ex_m)
   /\ encode toy_enc mac (Some cr) ex_m = Ok (ex_encode cr ex_m)
-  /\ (length (ex_encode cr ex_m) = 159)%nat
+  /\ (length (ex_encode cr ex_m) = 263)%nat
   /\ decode toy_dec mac (Some cr) false (ex_encode cr ex_m) = Ok (received cr ex_m).
 Proof.
-  cbv zeta. split; [| split; [| split]].
-  - destruct ex_wf as (H1 & H2 & H3).
-    split; [cbn; lia|]. split; [cbn; lia|]. split; [intros; apply toy_mac_length|].
-    split; [intros; apply toy_enc_length|]. split; [intros; apply toy_dec_enc; assumption|]. auto.
+  cbv zeta. split; [| split; [| split; [| split]]].
+  - split; [cbn; lia|]. split; [cbn; lia|]. split; [intros; apply toy_mac_length|].
+    split; [intros; apply toy_enc_length|]. split; [intros; apply toy_dec_enc; assumption|]. exact ex_wf.
+  - exact ex_m_not_simple.
   - vm_compute. reflexivity.
   - vm_compute. reflexivity.
   - vm_compute. reflexivity.
@@ -739,8 +745,8 @@ Qed.
 Example roundtrip_protected_instance :
   decode toy_dec (toy_mac 12) (Some ex_cr) false (ex_encode ex_cr ex_m) = Ok (received ex_cr ex_m).
 Proof.
-  destruct roundtrip_protected_nonvacuous as ((H1 & H2 & H3 & H4 & H5 & H6 & H7 & H8) & He & _).
-  exact (roundtrip_protected toy_enc toy_dec (toy_mac 12) ex_cr ex_m _ H1 H2 H3 H4 H5 H6 H7 H8 He).
+  destruct roundtrip_protected_nonvacuous as ((H1 & H2 & H3 & H4 & H5 & H6) & _ & He & _).
+  exact (roundtrip_protected toy_enc toy_dec (toy_mac 12) ex_cr ex_m _ H1 H2 H3 H4 H5 H6 He).
 Qed.
 
 (** [accepted_has_valid_mac]: an accepted datagram exists; its checksum equation evaluates to true *)
